@@ -149,6 +149,7 @@ def run(ctx):
     rule_special_members(ctx)
     rule_probes(ctx)
     rule_no_sign_extended_char(ctx)
+    rule_result_owns(ctx)
 
 
 # ------------------------------------------------------------------------------------------------------------------------------
@@ -282,6 +283,7 @@ PROBES = {
              "a default handed over as an object that converts to std::string is rendered through another route (a template overload is an exact match and beats the conversion): "
              "the third-rank source delivers another text than the one declared")],
 }
+PROBES["C15"] = PROBES["C03"]  # the usage text lists the declared default: the same probe
 PROBES["C12"] = []
 
 
@@ -363,3 +365,30 @@ def rule_no_sign_extended_char(ctx):
                             "%s widens a plain char into an unsigned %s-bit value in %s: for a byte >= 0x80 (any non-ASCII letter) char is negative here and the result is a number near 2^64 - "
                             "comparisons, table indices and keys computed from it single out those letters" % (short(f.qual), n.get("bits") or 64, hit[0]), (f, e.get("ln")))
     ctx.ok(rule, "-", "no-sign-extended-char:scanned", "%d function(s)" % len(fns), "-")
+
+
+
+def rule_result_owns(ctx):
+    """S8 (options scope): the result of a parse is a value - `arguments` holds what it reports itself. Pointers to the declared option objects are the
+    one exception (options never change address: they live in node-based maps of the parser). A pointer / reference / view into a container that
+    the parser owns is overwritten by the next parse() and dangles after a parser move: an earlier result reports another command line's words"""
+    if ctx.prop not in ("C01", "C12", "C14"):
+        return
+    import re
+    rule = rid(ctx, 8)
+    ctx.rule(rule, "result-owns-what-it-reports: every data member of options::arguments is held by value, or refers to declared option objects only")
+    c = ctx.prog.classes.get("nitro::options::arguments")
+    if not ctx.anchor(rule, "nitro::options::arguments", c is not None):
+        return
+    n = 0
+    for fl in c.get("fields", []):
+        if fl.get("static"):
+            continue
+        n += 1
+        t = (fl.get("type") or "")
+        non_owning = bool(fl.get("ptr") or fl.get("ref")) or re.search(r"reference_wrapper|string_view|string_ref|\bspan<", t) is not None
+        to_options = re.search(r"\b(option|multi_option|toggle|base)\b", t) is not None and "vector" not in t.split("<")[0]
+        ctx.check(not non_owning or to_options, rule, "nitro::options::arguments", "member-owned:%s" % fl.get("name"),
+                  "arguments::%s has the non-owning type `%s`: the result of one parse() reports through it whatever the parser holds NOW - the next parse() on the same "
+                  "parser rewrites it, a moved or destroyed parser leaves it dangling" % (fl.get("name"), t), "%s:%s" % (c.get("file"), c.get("line")), why_ok=t)
+    ctx.need(rule, "data members of options::arguments", n, 2)
